@@ -20,6 +20,8 @@ pub struct Violation {
 pub struct Report {
     pub evaluations: u64,
     pub nontrivial: HashSet<u64>,
+    /// non-trivial cases that are distinct by construction (enumerations): counted, not hashed
+    pub nontrivial_enumerated: u64,
     pub counters: BTreeMap<String, u64>,
     pub samples: Vec<Value>,
     pub violations: Vec<Violation>,
@@ -69,6 +71,7 @@ impl Report {
     pub fn merge(&mut self, other: Report) {
         self.evaluations += other.evaluations;
         self.nontrivial.extend(other.nontrivial);
+        self.nontrivial_enumerated += other.nontrivial_enumerated;
         for (k, v) in other.counters {
             if k.starts_with("max_") {
                 self.max(&k, v);
@@ -259,7 +262,7 @@ pub fn finish(meta: RunMeta, report: Report, findings: &[Finding], witness_sigs:
         exit = 1;
     }
 
-    let distinct = report.nontrivial.len() as u64;
+    let distinct = report.nontrivial.len() as u64 + report.nontrivial_enumerated;
     let mut inconclusive_run = false;
     if exit == 0 {
         if report.counters.get("harness_panics").copied().unwrap_or(0) > 0 {
